@@ -269,9 +269,8 @@ impl Story {
 
         if let Some(divert) = divert
             && divert.is_external
+            && let Some(name) = divert.get_target_path_string()
         {
-            let name = divert.get_target_path_string().unwrap();
-
             if !self.externals.contains_key(&name) {
                 if self.allow_external_function_fallbacks {
                     let fallback_found = self
